@@ -123,6 +123,8 @@ def run(module, cfg, *, files=None, workers=16, simulate=None, seed=None, depth=
                 if m:
                     res.violated = m.group(1)
                     in_err = True
+                elif line.startswith('Error:') and not in_err:
+                    in_err = True                     # evaluation errors: keep what TLC says about them
                 m = _cov.match(line)
                 if m:
                     res.coverage[m.group(1)] = res.coverage.get(m.group(1), 0) + int(m.group(7))
@@ -141,7 +143,7 @@ def run(module, cfg, *, files=None, workers=16, simulate=None, seed=None, depth=
         res.ok = (rc == 0 and res.violated is None and completed) or \
                  (simulate is not None and res.violated is None and rc in (0, -9))
         if res.violated is None and rc not in (0,) and not (simulate and rc == -9):
-            raise TLCFailure('TLC failed (rc=%s) on %s:\n%s' % (rc, module, res.stdout_tail))
+            raise TLCFailure('TLC failed (rc=%s) on %s:\n%s\n%s' % (rc, module, '\n'.join(err_lines[:40]), res.stdout_tail[-1500:]))
         return res
     finally:
         shutil.rmtree(d, ignore_errors=True)
